@@ -13,7 +13,7 @@
    What the theorem cannot exhibit: real O_EXCL arbitration by the kernel between processes - the check runs
    real trash-put processes against each other under a lock-step scheduler and free-running. *)
 From Coq Require Import List Arith Bool.
-From TV Require Import Conc.Conc Proofs.ConcProofs Prelude.Str Prelude.PosixPath Prog.Prog Cmd.Put.
+From TV Require Import Conc.Conc Proofs.ConcProofs Prelude.Str Prelude.PosixPath Prog.Prog Cmd.Put World.World Proofs.WorldProofs Proofs.WorldPut2.
 Import ListNotations.
 
 Theorem concurrent_puts_never_overwrite :
@@ -43,6 +43,16 @@ Proof. reflexivity. Qed.
 Print Assumptions persist_probes_then_creates.
 
 (* ---- non-vacuity: two processes, same name, the interleaving where both probe before either creates ---- *)
+(* ---- one process, on the tree of files (World.v): in every run of trash-put consistent with a file system s, at the moment
+   of every Move the destination is absent, or is a symbolic link (a payload without .trashinfo that os.path.exists cannot
+   see because it dangles - the stated exception).  The name search probes the payload name, creates the info exclusively,
+   and nothing the run does in between touches the payload path; so no file, directory or trashed entry is ever replaced,
+   and by World.effect the move onto an absent destination relocates the entry unchanged. *)
+Theorem put_never_moves_onto_something : forall o,
+  all_runs (fun t _ => forall s, wok free_dst s t) (put_main o).
+Proof. exact put_never_clobbers_lemma. Qed.
+Print Assumptions put_never_moves_onto_something.
+
 Definition ex_cand (p i : nat) : nat := i.            (* both want name 0, then 1, ... *)
 Definition ex_s0 : sh := {| infos := fun _ => None; files := fun _ => None; procs := fun _ => Probe 0 |}.
 Example init_ok_ex : init_ok ex_s0.
